@@ -3,7 +3,8 @@ usage: python3-vt tools/run_one.py C19 <task index> [timeout_ms]"""
 import sys
 import time
 import importlib
-sys.path.insert(0, '/verif')
+import os
+sys.path.insert(0, os.path.dirname(os.path.dirname(os.path.abspath(__file__))))
 from pyvc import contract as C, solve   # noqa
 
 prop, idx = sys.argv[1], int(sys.argv[2])
@@ -29,6 +30,6 @@ if hasattr(t, "contract"):
                 except Exception as e:
                     print("        cex err", e)
 else:
-    r = t.run("quick", 0)
+    r = t.run_unit(0, "quick")
     for o in r["obligations"]:
         print("  ", o["name"], o["status"], o["detail"])
